@@ -33,7 +33,9 @@ Expect(s, ev) ==
              why |-> IF ok1 /\ ok2 /\ ~ok3 THEN "aead: accelerated path available but not selected" ELSE "aead: construction"]
     [] ev.op = "gcm.seal" ->
          LET o == s[ev.h]
-             exp == Prefix(ev) \o G!Seal(o.rk, ev.nonce, ev.aad, ev.pt, o.ts)
+             \* aad_zeros: the additional data is that many zero bytes (huge lengths; see GCMG!SealZeroAad)
+             exp == Prefix(ev) \o (IF "aad_zeros" \in DOMAIN ev THEN G!SealZeroAad(o.rk, ev.nonce, ev.aad_zeros, ev.pt, o.ts)
+                                   ELSE G!Seal(o.rk, ev.nonce, ev.aad, ev.pt, o.ts))
              okV == ev.panic = "" /\ ev.out = exp
              okIn == /\ ev.nonce_after = ev.nonce /\ ev.aad_after = ev.aad
                      /\ (Inplace(ev) \/ ev.in_after = ev.pt)
